@@ -40,10 +40,118 @@ def cases(rng, tier):
         yield c
 
 
+def table_cases(rng, tier):
+    import rvgen, toygen
+    n = 60 if tier == "quick" else 1200
+    for i in range(n):
+        c = rvgen.sim_case(rng, "five" if i % 2 else "single", trace=0, run=rng.choice([0, 3, 40]), dprob=0.4, iprob=0.0, suite="rv-tables")
+        c.lines += ["sim.arch", "sim.regtable", "sim.memtable"]
+        yield c
+    for i in range(n):
+        c = toygen.image_case(rng, toygen.mixed_calls, max_steps=rng.choice([0, 1, 2, 7, 30]), suite="toy-tables")
+        c.lines += ["toy.snap", "toy.regtable", "toy.memtable"]
+        yield c
+
+
+_cases_base = cases
+
+
+def cases(rng, tier):
+    yield from _cases_base(rng, tier)
+    yield from table_cases(rng, tier)
+
+
+def _unreprs(t):
+    b, ud, h, sd = [unhx(x) for x in t]
+    return int(b.replace(" ", ""), 2), int(ud), int(h.replace(" ", ""), 16), int(sd), (b, ud, h, sd)
+
+
+def tables_oracle(c):
+    import rvgen
+    fails = []
+    out = dict()
+    for l, o in zip(c.lines, c.impl_out):
+        out[l] = o
+    def denotes(t, val, n, what):
+        try:
+            b, ud, h, sd, raw = _unreprs(t)
+        except Exception:
+            return f"{what}: unparsable representation {t}"
+        s = val - 2**n if val >= 2**(n - 1) else val
+        if not (b == ud == h == val and sd == s and len(raw[0].replace(" ", "")) == n and len(raw[2].replace(" ", "")) == -(-n // 4)):
+            return f"{what}: shown {raw} but the value is {val}"
+        return None
+    if c.suite == "rv-tables" or "sim.regtable" in out:
+        if "sim.arch" not in out or not out["sim.arch"].startswith("pc="):
+            return fails
+        d = rvgen.parse_snap(out["sim.arch"])
+        regs = [int(x) for x in d["regs"].split(",")]
+        rt = out.get("sim.regtable", "").split(";")
+        if len(rt) != 32:
+            return [Failure("oracle", PROP, f"register table has {len(rt)} rows", "tables:registers")]
+        for r in range(32):
+            e = denotes(rt[r].split(","), regs[r], 32, f"register x{r}")
+            if e:
+                return [Failure("oracle", PROP, e, "tables:registers")]
+        import rvref
+        cells = rvref.mem_of_snap(d)
+        exp = {}
+        for a in cells:
+            exp[a - a % 4] = sum(cells.get(a - a % 4 + i, 0) << (8 * i) for i in range(4))
+        mt = [x for x in out.get("sim.memtable", "").split(";") if x]
+        got = []
+        for row in mt:
+            f = row.split(",")
+            ad, hs = int(f[0]), unhx(f[1])
+            if hs != "0x%08X" % ad:
+                return [Failure("oracle", PROP, f"memory table address text {hs!r} for address {ad}", "tables:memory")]
+            e = denotes(f[2:6], exp.get(ad, -1), 32, f"memory word 0x{ad:x}")
+            if e:
+                return [Failure("oracle", PROP, e, "tables:memory")]
+            got.append(ad)
+        if got != sorted(exp):
+            return [Failure("oracle", PROP, f"memory table rows {got[:6]} are not exactly the written words {sorted(exp)[:6]} in ascending order", "tables:memory")]
+    else:
+        if "toy.snap" not in out:
+            return fails
+        d = {}
+        for part in out["toy.snap"].split("|"):
+            k, _, v = part.partition("=")
+            d[k] = v
+        rt = dict(x.split("=", 1) for x in out.get("toy.regtable", "").split("|") if "=" in x)
+        has = d["max"] not in ("-", "-1")
+        for name, key, n in (("accu", "accu", 16), ("pc", "pc", 12)):
+            if has:
+                e = denotes(rt[name].split(","), int(d[key]), n, f"TOY {name}")
+                if e:
+                    return [Failure("oracle", PROP, e, "tables:toy-registers")]
+            elif rt.get(name) != "-":
+                return [Failure("oracle", PROP, f"TOY {name} shown although no program is loaded", "tables:toy-registers")]
+        if d["ir"] != "-":
+            e = denotes(rt["ir"].split(","), int(d["ir"]), 16, "TOY ir")
+            if e:
+                return [Failure("oracle", PROP, e, "tables:toy-registers")]
+        cells = {int(p.split(":")[0]): int(p.split(":")[1]) for p in d["mem"].split(",") if p}
+        mt = [x for x in out.get("toy.memtable", "").split(";") if x]
+        got = []
+        for row in mt:
+            f = row.split(",")
+            ad = int(f[0])
+            if unhx(f[1]) != "0x%03X" % ad:
+                return [Failure("oracle", PROP, f"TOY memory table address text {unhx(f[1])!r} for {ad}", "tables:toy-memory")]
+            e = denotes(f[2:6], cells.get(ad, -1), 16, f"TOY memory word {ad}")
+            if e:
+                return [Failure("oracle", PROP, e, "tables:toy-memory")]
+            got.append(ad)
+        if got != sorted(cells):
+            return [Failure("oracle", PROP, "TOY memory table rows are not exactly the written words in ascending order", "tables:toy-memory")]
+    return fails
+
+
 def nontrivial(c):
     if c.suite == "fmt":
         return tuple(p for p in map(tuple, c.meta["pairs"]) if abs(p[0]) >= 16) or None
-    return "\n".join(c.lines)
+    return "\n".join(c.lines)[:3000]
 
 
 def measure(c, stats):
@@ -58,6 +166,8 @@ def unhx(h):
 
 def oracle(c):
     fails = []
+    if any(l in ("sim.regtable", "toy.regtable") for l in c.lines):
+        return tables_oracle(c)
     if c.suite in ("fmt", "corpus", "replay") and c.lines and c.lines[0].startswith("fmt"):
         for l, o in zip(c.lines, c.impl_out):
             _, x, n = l.split()
